@@ -10,10 +10,10 @@
 // verbatim to the OCaml driver of the model), every other line is an observation that the model
 // must reproduce byte for byte.
 //   fen <hex>             -> "= <state>" | "E <code>"
-//   mk f t p              -> "= <state>" , "u cap cm ep hmc"
+//   mk f t p              -> "= <state>" , "U cap cm ep hmc"
 //   un                    -> "= <state>" , "R <all-but-emptyBB> <emptyBB>"   (restored vs snapshot before mk)
-//   mkb f t p             -> "b <partial>" after makeMoveB, "b <partial>" after unMakeMoveB
-//   see f t               -> "b <partial>" x2 (makeSEEMove / unMakeSEEMove)
+//   mkb f t p             -> "B <partial>" after makeMoveB, "B <partial>" after unMakeMoveB
+//   see f t               -> "B <partial>" x2 (makeSEEMove / unMakeSEEMove)
 //   swm b | sep z | scm n | shm z | sfm z     -> "= <state>"
 //   ser                   -> "S w0 w1 w2 w3 w4" , "= <state of deSerialize(serialize)>" , "D <equal?>"
 //   deser w0..w4          -> "= <state>"  (current position replaced)
@@ -211,7 +211,7 @@ struct Machine {
         pos.makeMove(m, ui);
         moves.push_back(m); undos.push_back(ui);
         out << "= " << state(pos) << '\n';
-        out << "u " << ui.capturedPiece << ' ' << ui.castleMask << ' ' << ui.epSquare.asInt() << ' ' << ui.halfMoveClock << '\n';
+        out << "U " << ui.capturedPiece << ' ' << ui.castleMask << ' ' << ui.epSquare.asInt() << ' ' << ui.halfMoveClock << '\n';
     }
     void opUn() {
         out << "un\n";
@@ -227,17 +227,17 @@ struct Machine {
         UndoInfo ui;
         ui.epSquare = Square(-1); ui.halfMoveClock = 0;
         pos.makeMoveB(m, ui);
-        out << "b " << partial(pos) << '\n';
+        out << "B " << partial(pos) << '\n';
         pos.unMakeMoveB(m, ui);
-        out << "b " << partial(pos) << '\n';
+        out << "B " << partial(pos) << '\n';
     }
     void opSee(const Move& m) {
         out << "see " << m.from().asInt() << ' ' << m.to().asInt() << '\n';
         UndoInfo ui;
         pos.makeSEEMove(m, ui);
-        out << "b " << partial(pos) << '\n';
+        out << "B " << partial(pos) << '\n';
         pos.unMakeSEEMove(m, ui);
-        out << "b " << partial(pos) << '\n';
+        out << "B " << partial(pos) << '\n';
     }
     void opEdit(const std::string& k, long v) {
         out << k << ' ' << v << '\n';
